@@ -49,8 +49,10 @@ def r1(report, db, P):
     if rd is None or wr is None:
         raise AnalysisError('Packet.read / write_fields vanished')
     shapes = {}
+    from .. import shared
+    S = shared.summariser(db, CallGraph(db), implicit_raises=False)
     for fi, side in ((rd, 'r'), (wr, 'w')):
-        sh = generic_shape(fi, side)
+        sh = generic_shape(fi, side, S)
         if isinstance(sh, str):
             report.violation(R, 'generic:%s' % fi.name, fi.path, fi.node,
                              fi.qualname, sh)
@@ -67,86 +69,95 @@ def r1(report, db, P):
             report.ok(R, 'both iterate %s' % shapes['r']['iter'])
 
 
-def generic_shape(fi, side):
-    self_name = fi.params[0]
-    stream = fi.params[1]
-    fors = [n for n in fi.body if isinstance(n, ast.For)]
-    if len(fors) != 1:
+def generic_shape(fi, side, S=None):
+    """Read off the path summary: a loop over self.definition, inside it a
+    loop over the items of the entry, and per item exactly one
+    setattr(self, name, type.read_with_context(stream, self.context)) /
+    type.send_with_context(getattr(self, name), stream, self.context)."""
+    from ..pathsum import struct, show, subterms
+    me, stream = ('sym', fi.params[0]), ('sym', fi.params[1])
+    ctx = ('attr', me, 'context')
+    paths = [p for p in S.run(fi) if p.returns]
+    if len(paths) != 1:
+        raise AnalysisError('generic codec %s: expected one path, found %d'
+                            % (fi.qualname, len(paths)), fi.node,
+                            rel(fi.path))
+    top = [e for e in paths[0].events if e.kind in ('loop', 'call', 'store')]
+    if len(top) != 1 or top[0].kind != 'loop':
         raise AnalysisError('generic codec %s: expected one loop over the '
                             'definition' % fi.qualname, fi.node, rel(fi.path))
-    outer = fors[0]
-    inner = [n for n in outer.body if isinstance(n, ast.For)]
-    if len(inner) != 1 or not isinstance(outer.target, ast.Name):
+    outer = top[0]
+    if len(outer.paths) != 1:
+        raise AnalysisError('generic codec %s: the loop over the definition '
+                            'branches' % fi.qualname, outer.node,
+                            rel(fi.path))
+    inner = [e for e in outer.paths[0].events if e.kind == 'loop']
+    others = [e for e in outer.paths[0].events if e.kind in ('store',)
+              or (e.kind == 'call' and e.fn[2:3] != ('items',))]
+    if len(inner) != 1 or others:
         raise AnalysisError('generic codec %s: expected a nested loop over '
-                            'field.items()' % fi.qualname, outer,
+                            'field.items()' % fi.qualname, outer.node,
                             rel(fi.path))
     inner = inner[0]
-    it = inner.iter
-    if not (isinstance(it, ast.Call) and isinstance(it.func, ast.Attribute)
-            and it.func.attr == 'items' and isinstance(it.func.value,
-                                                       ast.Name)
-            and it.func.value.id == outer.target.id
-            and isinstance(inner.target, ast.Tuple)
-            and len(inner.target.elts) == 2):
+    it = inner.ctx
+    if not (it[0] == 'call' and it[1][0] == 'attr' and it[1][2] == 'items'
+            and it[1][1][0] == 'elem'
+            and struct(it[1][1][1]) == struct(outer.ctx) and not it[2]):
         raise AnalysisError('generic codec %s: inner loop is not over '
-                            '<field>.items()' % fi.qualname, inner,
+                            '<field>.items()' % fi.qualname, inner.node,
                             rel(fi.path))
-    kname, tname = [e.id for e in inner.target.elts]
-    ctx = '%s.context' % self_name
-    calls = [n for n in ast.walk(inner) if isinstance(n, ast.Call)]
-    env = {}
-    for st in inner.body:
-        if isinstance(st, ast.Assign) and len(st.targets) == 1 and \
-                isinstance(st.targets[0], ast.Name):
-            env[st.targets[0].id] = st.value
-
-    def res(e):
-        if isinstance(e, ast.Name) and e.id in env:
-            return env[e.id]
-        return e
+    if len(inner.paths) != 1:
+        return 'the per-field step branches'
+    q = inner.paths[0]
+    evs = q.flat(('call', 'store'))
+    el = None
+    for e in evs:
+        for t in [x for a in ([e.fn] if e.kind == 'call' else [])
+                  + list(e.args or ()) + [e.value, e.attr]
+                  if isinstance(a, tuple) for x in subterms(a)]:
+            if t[0] == 'elem' and struct(t[1]) == struct(it):
+                el = t
+    if el is None:
+        return 'the per-field step does not use the (name, type) pair'
+    kname = ('op', 'index', (el, ('const', 0)))
+    tname = ('op', 'index', (el, ('const', 1)))
     if side == 'r':
-        sets = [c for c in calls if isinstance(c.func, ast.Name)
-                and c.func.id == 'setattr']
-        if len(sets) != 1 or len(sets[0].args) != 3:
+        sets = [e for e in evs if e.kind == 'store']
+        calls = [e for e in evs if e.kind == 'call']
+        if len(sets) != 1:
             return 'reader does not store each field with one setattr'
-        s = sets[0]
-        val = res(s.args[2])
-        ok = (ast.unparse(s.args[0]) == self_name
-              and ast.unparse(s.args[1]) == kname
-              and isinstance(val, ast.Call)
-              and isinstance(val.func, ast.Attribute)
-              and val.func.attr == 'read_with_context'
-              and ast.unparse(val.func.value) == tname
-              and [ast.unparse(a) for a in val.args] == [stream, ctx])
+        s_ = sets[0]
+        v = s_.value
+        ok = (struct(s_.base) == me and s_.attr == kname
+              and v[0] == 'call' and v[1] == ('attr', tname,
+                                              'read_with_context')
+              and [struct(a) if a[0] != 'attr' or a[1] != me else a
+                   for a in v[2]] == [stream, ctx] and len(calls) == 1)
         if not ok:
-            return ('reader must do setattr(self, name, type.read_with_'
-                    'context(stream, self.context)); found %s'
-                    % ast.unparse(s))
+            return ('reader stores %s.%s = %s; expected setattr(self, name, '
+                    'type.read_with_context(stream, self.context))'
+                    % (show(s_.base), show(s_.attr) if isinstance(
+                        s_.attr, tuple) else s_.attr, show(v)))
+        summary = 'setattr(self, k, T.read_with_context(stream, ' \
+            'self.context)) per item'
     else:
-        sends = [c for c in calls if isinstance(c.func, ast.Attribute)
-                 and c.func.attr == 'send_with_context']
-        if len(sends) != 1 or len(sends[0].args) != 3:
-            return 'writer does not send each field with one ' \
-                   'send_with_context'
-        s = sends[0]
-        val = res(s.args[0])
-        ok = (ast.unparse(s.func.value) == tname
-              and isinstance(val, ast.Call) and isinstance(val.func, ast.Name)
-              and val.func.id == 'getattr'
-              and [ast.unparse(a) for a in val.args[:2]] == [self_name,
-                                                             kname]
-              and len(val.args) == 2
-              and [ast.unparse(a) for a in s.args[1:]] == [stream, ctx])
+        sends = [e for e in evs if e.kind == 'call']
+        if len(sends) != 1:
+            return 'writer does not send each field exactly once'
+        w = sends[0]
+        want_val = ('op', 'getattr', (me, kname))
+        ok = (w.fn == ('attr', tname, 'send_with_context')
+              and len(w.args) == 3 and w.args[0] == want_val
+              and struct(w.args[1]) == stream and w.args[2] == ctx)
         if not ok:
-            return ('writer must do type.send_with_context(getattr(self, '
-                    'name), buffer, self.context); found %s'
-                    % ast.unparse(s))
-    return dict(iter=ast.unparse(outer.iter).replace(self_name, 'self'),
-                summary='for field in %s: for name, type in field.items()'
-                % ast.unparse(outer.iter))
+            return ('writer does %r; expected T.send_with_context('
+                    'getattr(self, k), buffer, self.context)' % w)
+        summary = 'T.send_with_context(getattr(self, k), buffer, ' \
+            'self.context) per item'
+    return dict(iter='for field in %s: for k, T in field.items()'
+                % show(outer.ctx), summary=summary)
 
 
-# ---------------------------------------------------------------------------
 def r2(report, db, P, classes, versions):
     R = report.rule('R05.2', 'definition well-formed for every class x '
                     'version: list of dicts with 0 or 1 entries, values are '
